@@ -36,8 +36,8 @@ Proof.
     destruct (preprocess c X td (np_mask prm)) as [[[seqs d] fr]|e] eqn:E; [|discriminate].
     destruct (match nd with
               | Some g => Ok g
-              | None => if (np_size prm =? 1)%nat then Ok (N.bare_dict (zdict d))
-                        else learn_cold (zdict d) (N.invert (zdict d)) (grams_of prm seqs)
+              | None => if (np_size prm =? 1)%nat then Ok (KN.bare_dict (zdict d))
+                        else learn_cold (zdict d) (KN.invert (zdict d)) (grams_of prm seqs)
               end) as [cold|e]; [|discriminate].
     inversion H; subst M train; clear H. simpl.
     destruct (tok_reindex_idem Z Z.eqb Z.ltb matches f32div f64div f64to32 one64 Zeqb_eq
@@ -72,16 +72,16 @@ Proof.
   intros skip inv cold grams c. unfold count_doc_skip.
   assert (G : forall ctr, (forall x, In x (map fst ctr) -> In x (map snd cold)) ->
             In c (map fst (fold_left (fun counter g =>
-               match N.col_of inv cold g with
+               match KN.col_of inv cold g with
                | Some c => if match skip with Some mc => c =? mc | None => false end then counter
-                           else N.incr c counter
+                           else KN.incr c counter
                | None => counter
                end) grams ctr)) -> In c (map snd cold)).
   { induction grams as [|g grams IH]; intros ctr Hc; simpl; [apply Hc|]. apply IH.
-    destruct (N.col_of inv cold g) as [c0|] eqn:E; [|exact Hc].
+    destruct (KN.col_of inv cold g) as [c0|] eqn:E; [|exact Hc].
     destruct (match skip with Some mc => c0 =? mc | None => false end); [exact Hc|].
     intros x Hx. apply NP.incr_keys in Hx. destruct Hx as [->|Hx]; [|apply Hc; exact Hx].
-    unfold N.col_of in E. destruct (N.token_gram inv g) as [k|]; [|discriminate].
+    unfold KN.col_of in E. destruct (KN.token_gram inv g) as [k|]; [|discriminate].
     apply NP.glookup_In in E. apply in_map_iff. exists (k, c0). split; [reflexivity|exact E]. }
   apply G. intros x [].
 Qed.
@@ -89,13 +89,13 @@ Qed.
 Theorem ngv_transform_shape : forall M X,
   Forall (fun kv => 0 <= snd kv < Z.of_nat (length (nv_cold M))) (nv_cold M) ->
   exists R, ngv_transform M X = Ok R /\
-    A.nrows R = Z.of_nat (length X) /\ A.ncols R = Z.of_nat (length (nv_cold M)) /\
-    forall t, In t (A.entries R) -> 0 <= A.trow t < A.nrows R /\ 0 <= A.tcol t < A.ncols R.
+    KA.nrows R = Z.of_nat (length X) /\ KA.ncols R = Z.of_nat (length (nv_cold M)) /\
+    forall t, In t (KA.entries R) -> 0 <= KA.trow t < KA.nrows R /\ 0 <= KA.tcol t < KA.ncols R.
 Proof.
   intros M X W. rewrite ngv_transform_unfold. eexists. split; [reflexivity|].
-  unfold count_matrix, A.nrows, A.ncols, A.entries, grams_of. simpl. rewrite map_length, reindex_fst_length.
+  unfold count_matrix, KA.nrows, KA.ncols, KA.entries, grams_of. simpl. rewrite map_length, reindex_fst_length.
   split; [reflexivity|]. split; [reflexivity|]. intros t Ht. apply in_flat_map in Ht. destruct Ht as [i [Hi Ht]].
-  apply in_seq in Hi. apply in_map_iff in Ht. destruct Ht as [[c v] [<- Hcv]]. unfold A.trow, A.tcol. simpl.
+  apply in_seq in Hi. apply in_map_iff in Ht. destruct Ht as [[c v] [<- Hcv]]. unfold KA.trow, KA.tcol. simpl.
   split; [lia|].
   assert (Hc : In c (map snd (nv_cold M))).
   { eapply count_doc_skip_keys. apply in_map_iff. exists (c, v). split; [reflexivity|exact Hcv]. }
@@ -117,29 +117,29 @@ Qed.
 
 (* ---------- the special case modelled by Model/K7_Ngrams.v ---------- *)
 Lemma lookup_zdict : forall (d : dict Z) t,
-  A.lookup t (zdict d) = option_map Z.of_nat (lookup Z Z.eqb d t).
+  KA.lookup t (zdict d) = option_map Z.of_nat (lookup Z Z.eqb d t).
 Proof.
-  intros d t. unfold A.lookup. induction d as [|[k v] d IH]; simpl; [reflexivity|].
+  intros d t. unfold KA.lookup. induction d as [|[k v] d IH]; simpl; [reflexivity|].
   rewrite (Z.eqb_sym k t). destruct (t =? k); [reflexivity|exact IH].
 Qed.
 
-Lemma zseq_reindex_delete : forall (d : dict Z) s, zseq (reindex_delete Z Z.eqb d s) = A.kept (zdict d) s.
+Lemma zseq_reindex_delete : forall (d : dict Z) s, zseq (reindex_delete Z Z.eqb d s) = KA.kept (zdict d) s.
 Proof.
-  intros d s. unfold zseq, reindex_delete, A.kept. induction s as [|t s IH]; simpl; [reflexivity|].
+  intros d s. unfold zseq, reindex_delete, KA.kept. induction s as [|t s IH]; simpl; [reflexivity|].
   rewrite lookup_zdict. destruct (lookup Z Z.eqb d t); simpl; rewrite ?IH; reflexivity.
 Qed.
 
 Theorem ngv_transform_is_K7 : forall M X, np_mask prm = None -> nv_mask_col M = None ->
-  ngv_transform M X = Ok (N.ng_transform (to_K7 prm M) X).
+  ngv_transform M X = Ok (KN.ng_transform (to_K7 prm M) X).
 Proof.
   intros M X Hm Hc. rewrite ngv_transform_unfold, Hm. f_equal. simpl.
-  unfold count_matrix, N.ng_transform, to_K7, grams_of. rewrite !map_length. rewrite Hc. simpl.
+  unfold count_matrix, KN.ng_transform, to_K7, grams_of. rewrite !map_length. rewrite Hc. simpl.
   f_equal. apply flat_map_ext. intro i. f_equal.
-  change (count_doc_skip None (nv_inv M) (nv_cold M)) with (N.count_doc (nv_inv M) (nv_cold M)).
-  f_equal. unfold N.doc_grams. simpl.
+  change (count_doc_skip None (nv_inv M) (nv_cold M)) with (KN.count_doc (nv_inv M) (nv_cold M)).
+  f_equal. unfold KN.doc_grams. simpl.
   rewrite map_map.
   change (@nil (list Z)) with
-    ((fun s => N.ngrams_of (zseq (reindex_delete Z Z.eqb (nv_dict M) s)) (np_size prm) (np_beh prm)) []) at 1.
+    ((fun s => KN.ngrams_of (zseq (reindex_delete Z Z.eqb (nv_dict M) s)) (np_size prm) (np_beh prm)) []) at 1.
   rewrite map_nth. rewrite zseq_reindex_delete. reflexivity.
 Qed.
 
